@@ -27,7 +27,7 @@ import (
 )
 
 type Op struct {
-	K   string `json:"k"` // connect disconnect console chat ladd lrem lerr agent mark bcastx sendx cut badlogin
+	K   string `json:"k"` // connect connectcut disconnect console chat ladd lrem lerr agent mark bcastx sendx cut badlogin
 	I   int    `json:"i"`
 	J   int    `json:"j"`
 	Via bool   `json:"via"` // through an operator's websocket (only while no dead client exists) instead of the direct call
@@ -37,7 +37,7 @@ type CaseA struct {
 	Ops []Op `json:"ops"`
 }
 
-var opKinds = []string{"connect", "connect", "connect", "disconnect", "disconnect", "console", "console", "console", "chat", "chat", "ladd", "ladd", "ladd", "lrem", "lrem", "lrem", "lerr", "agent", "agent", "mark", "mark", "bcastx", "bcastx", "sendx", "cut", "cut", "badlogin"}
+var opKinds = []string{"connect", "connect", "agent", "connectcut", "connect", "connectcut", "disconnect", "disconnect", "console", "console", "console", "chat", "chat", "ladd", "ladd", "ladd", "lrem", "lrem", "lrem", "lerr", "agent", "agent", "mark", "mark", "bcastx", "bcastx", "sendx", "cut", "cut", "badlogin"}
 
 func genA(t *rapid.T) CaseA {
 	var c CaseA
@@ -252,6 +252,117 @@ func (w *world) connect(sig string) *core.Violation {
 	return nil
 }
 
+// registerAgent: a new session the way the listeners do it (AgentAdd + AgentSendNotify).
+func (w *world) registerAgent() *core.Violation {
+	ts := w.fx.TS
+	w.nextAg++
+	id := 0x10000000 + w.nextAg
+	a := wsx.NewAgent(id)
+	ts.AgentAdd(a)
+	ts.AgentSendNotify(a)
+	w.agents = append(w.agents, struct {
+		id     uint32
+		active bool
+	}{id, true})
+	return w.expectAll("!newsession/"+a.NameID+"/"+wsx.AgentKeyB64(id), nil, "live-oneshot")
+}
+
+// probe runs after every injected fault: the agent side must still work - a new agent can
+// register (and is announced to the surviving operators), and the lookups every agent
+// request starts with return.  Each call has its own watchdog so that a blocked one is named.
+func (w *world) probe(after string) *core.Violation {
+	if len(w.agents) >= 9 {
+		return nil
+	}
+	ts := w.fx.TS
+	if v := core.WithWatchdog(wsx.Watchdog, "AgentAdd+AgentSendNotify-after-"+after, w.registerAgent); v != nil {
+		return v
+	}
+	id := w.agents[len(w.agents)-1].id
+	if v := core.WithWatchdog(wsx.Watchdog, "AgentExist-after-"+after, func() *core.Violation {
+		if !ts.AgentExist(int(id)) {
+			return core.V("agent-lookup|registered-agent-not-found|AgentExist", "AgentExist(%x) is false right after the agent registered", id)
+		}
+		return nil
+	}); v != nil {
+		return v
+	}
+	return core.WithWatchdog(wsx.Watchdog, "AgentInstance-after-"+after, func() *core.Violation {
+		if a := ts.AgentInstance(int(id)); a == nil || a.NameID != fmt.Sprintf("%08x", id) {
+			return core.V("agent-lookup|registered-agent-not-found|AgentInstance", "AgentInstance(%x) = %v right after the agent registered", id, a)
+		}
+		return nil
+	})
+}
+
+// connectCut: an operator logs in over a transport that fails at a chosen frame of its
+// connect replay: the auth reply, one of the history frames, or one of the live sessions.
+func (w *world) connectCut(op Op) *core.Violation {
+	if len(w.free) == 0 || len(w.clients) >= maxClients+1 {
+		return nil
+	}
+	user := w.free[0]
+	w.free = w.free[1:]
+	c, err := w.fx.Dial("/havoc/")
+	if err != nil {
+		return core.V("harness|dial", "%v", err)
+	}
+	H := len(w.retained) + 1 // + the newcomer's own NewUser record
+	S := len(w.sessions())
+	total := 1 + H + S
+	k := (op.J * total / 41) % total // a fraction of the whole replay ...
+	if op.I%3 != 0 && S > 0 {
+		k = 1 + H + (op.J % S) // ... or aimed at the live-session part
+	}
+	class := "cut-in-history"
+	switch {
+	case k == 0:
+		class = "cut-in-auth-reply"
+	case k > H:
+		class = "cut-in-live-sessions"
+	}
+	wsx.Obs("connectcut:" + class)
+	wsx.Obs(fmt.Sprintf("connectcut:agents=%d", S))
+	c.Peer.CutAfterWrites(k, op.I*7%40)
+	m := &mclient{user: user, c: c, dead: "cut-during-replay:" + class}
+	c.SendJSON(wsx.LoginPkg(user, "pw-"+user))
+	w.retained = append(w.retained, ent{p: "newuser/" + user})
+	if v := w.expectAll("newuser/"+user, nil, "live"); v != nil {
+		return v
+	}
+	// the teamserver has run into the failure once the failing write has been attempted
+	deadline := time.Now().Add(wsx.Watchdog)
+	for !c.Peer.WriteFailed() {
+		if time.Now().After(deadline) {
+			return core.V("replay|not-delivered|connect-replay-stopped-early", "the newcomer's replay (%d frames expected) never reached frame %d (%s)", total, k, class)
+		}
+		time.Sleep(100 * time.Microsecond)
+	}
+	// what did get through is a prefix of Success + history + live sessions
+	want := append([]string{"init/success"}, w.replay()...)
+	want = append(want, w.sessions()...)
+	time.Sleep(time.Millisecond)
+	i := 0
+	for _, fr := range c.Pending() {
+		pk, err := wsx.Decode(fr)
+		if err != nil {
+			return core.V("frame|not-one-package", "%v: %.200q", err, fr.Data)
+		}
+		p := wsx.Proj(pk)
+		if isRawAdd(p) {
+			continue
+		}
+		if i >= len(want) || want[i] != p {
+			return core.V("replay|wrong|before-the-cut", "newcomer %s (transport failing at frame %d, %s): frame %d is %q, the model expects %v", user, k, class, i, p, want)
+		}
+		i++
+	}
+	w.clients = append(w.clients, m)
+	m.id, _ = w.fx.ClientByAddr(c.Local)
+	w.anyDead = true
+	return nil
+}
+
 func (w *world) waitGone(m *mclient) *core.Violation {
 	deadline := time.Now().Add(wsx.Watchdog)
 	for {
@@ -316,6 +427,11 @@ func runA(raw json.RawMessage) *core.Violation {
 		v := core.WithWatchdog(3*wsx.Watchdog, "op:"+op.K, func() *core.Violation { return w.step(op) })
 		if v == nil {
 			v = w.afterOp(op)
+		}
+		if v == nil && w.anyDead && (op.K == "cut" || op.K == "connectcut" || op.K == "badlogin") {
+			if v = w.probe(op.K); v == nil {
+				v = w.afterOp(Op{K: "probe after " + op.K})
+			}
 		}
 		if v != nil {
 			if strings.HasPrefix(v.Sig, "hang|") {
@@ -413,6 +529,9 @@ func (w *world) step1(op Op) *core.Violation {
 			return nil
 		}
 		return w.connect("replay")
+
+	case "connectcut":
+		return w.connectCut(op)
 
 	case "disconnect":
 		if len(w.clients) == 0 {
@@ -531,16 +650,7 @@ func (w *world) step1(op Op) *core.Violation {
 		if len(w.agents) >= 4 {
 			return nil
 		}
-		w.nextAg++
-		id := 0x10000000 + w.nextAg
-		a := wsx.NewAgent(id)
-		ts.AgentAdd(a)
-		ts.AgentSendNotify(a)
-		w.agents = append(w.agents, struct {
-			id     uint32
-			active bool
-		}{id, true})
-		return w.expectAll("!newsession/"+a.NameID+"/"+wsx.AgentKeyB64(id), nil, "live-oneshot")
+		return w.registerAgent()
 
 	case "mark":
 		if len(w.agents) == 0 {
@@ -721,6 +831,15 @@ func classifyA(c CaseA) core.Class {
 				cutSeen = true
 				cl.Labels = append(cl.Labels, fmt.Sprintf("cut-mode:%d", op.J%3))
 			}
+		case "connectcut":
+			nCut++
+			cutSeen = true
+			sendAfterCut = true // followed by the agent-side probe
+			if op.I%3 != 0 {
+				cl.Labels = append(cl.Labels, "connectcut-aimed-at-live-sessions")
+			} else {
+				cl.Labels = append(cl.Labels, "connectcut-at-fraction-of-whole-replay")
+			}
 		case "badlogin":
 			nBad++
 			cutSeen = true
@@ -754,7 +873,7 @@ func classifyA(c CaseA) core.Class {
 func TestC11a(t *testing.T) {
 	core.Run(t, core.Spec[CaseA]{
 		Property: "C11", Sub: "a",
-		Rule: "histories of 1-24 operations on the real teamserver (real Start(), engine served on a fault-injecting listener, gorilla clients): operator connect+login (followed by a one-shot chat of the newcomer), disconnect (abrupt / close frame), console output (ts.AgentConsole), chat through an operator's websocket, listener add (SMB / External; through an operator's request or ListenerStart), listener remove (request or DispatchEvent), ListenerError, agent registration (AgentAdd+AgentSendNotify), mark dead/alive, recorded broadcast with one client excluded, SendEvent to one client, transport cut at a client (writes fail before the next frame / after 1-37 bytes of it / whole transport killed between frames), refused login; every history ends with a newcomer. Oracle: a model of the retained list (everything recorded with OneTime != true, listener Add events pruned on removal, set Offline on error) - a newcomer receives Success, then exactly the model's list in order, then one NewSession per active agent; every live event arrives exactly once at every authenticated client except the excluded one, one JSON package per websocket message, nothing else arrives; one-shot events (NewSession, the newcomers' chats) arrive live and never in a replay; after a cut every operation still returns within the 20 s watchdog and no client mutex stays locked. Non-trivial: a replay after a listener removal, or a send following a failed client",
+		Rule: "histories of 1-24 operations on the real teamserver (real Start(), engine served on a fault-injecting listener, gorilla clients): operator connect+login (followed by a one-shot chat of the newcomer), disconnect (abrupt / close frame), console output (ts.AgentConsole), chat through an operator's websocket, listener add (SMB / External; through an operator's request or ListenerStart), listener remove (request or DispatchEvent), ListenerError, agent registration (AgentAdd+AgentSendNotify), mark dead/alive, recorded broadcast with one client excluded, SendEvent to one client, transport cut at a client (writes fail before the next frame / after 1-37 bytes of it / whole transport killed between frames), an operator logging in over a transport that fails at a frame of its connect replay (drawn as a fraction of the whole replay = auth reply + history + live sessions, or aimed inside the live-session part; live agents registered by AgentAdd+AgentSendNotify), refused login; after every injected fault an agent-side probe (register a new agent, AgentExist, AgentInstance, each under its own watchdog, the new session announced to the survivors); every history ends with a newcomer who must get the history and all live sessions including those of the probes. Oracle: a model of the retained list (everything recorded with OneTime != true, listener Add events pruned on removal, set Offline on error) - a newcomer receives Success, then exactly the model's list in order, then one NewSession per active agent; every live event arrives exactly once at every authenticated client except the excluded one, one JSON package per websocket message, nothing else arrives; one-shot events (NewSession, the newcomers' chats) arrive live and never in a replay; after a cut every operation still returns within the 20 s watchdog and no client mutex stays locked. Non-trivial: a replay after a listener removal, or a send following a failed client",
 		Gen:   genA, Check: checkA, Classify: classifyA,
 		Assumptions: []string{
 			"raw Listener/Add requests of operators (Head.User set), which handleRequest also records and which the real client ignores in a replay, are left out of the comparison",
